@@ -19,6 +19,19 @@ Theorem C11_draw_by_repetition : forall stopf rec qrec p s ao alpha beta ply dep
   nm_prune stopf rec qrec p s ao alpha beta ply depth in_chk false is_pv cn ttm = Some (DRAW_SCORE, s).
 Proof. exact draw_by_repetition. Qed.
 
+(* the move loop: when every successor answers with the draw score -- whatever window, depth and table it is searched
+   with -- the loop's best score is -DRAW_SCORE, its best move is the first move, no re-search changes that, and the
+   history is restored.  (That the successors of an all-drawn root do answer so is C11_draw_by_clock /
+   C11_draw_by_repetition plus "no table cut-off", which holds from an empty table while keys do not clash.) *)
+Theorem C11_root_loop_all_draw : forall rec p,
+  (forall m s a b pl d cn, exists s', rec (makemove true p m) s a b pl d cn = Some (DRAW_SCORE, s') /\ ss_hist s' = ss_hist s) ->
+  forall in_chk beta ply depth m ms s,
+  - DRAW_SCORE < beta -> - INF < - DRAW_SCORE ->
+  exists a' s', n_loop rec p in_chk beta ply depth (m :: ms) 0 s (- INF) (- INF) None
+                = Some (a', - DRAW_SCORE, Some m, s')
+                /\ ss_hist s' = ss_hist s.
+Proof. exact root_loop_all_draw. Qed.
+
 (* the window really reaches the position that arose from the last capture or pawn move: with clock 4 and history
    [current; a; b; c; first-after-capture = current] the repetition is counted (the defect repaired in 8ccaad1) *)
 Example C11_window_example : count_rep (Z.to_nat (4 + 1)) [7; 1; 2; 3; 7]%N 7%N true = 2.
@@ -26,3 +39,4 @@ Proof. vm_compute. reflexivity. Qed.
 
 Print Assumptions C11_draw_by_clock.
 Print Assumptions C11_draw_by_repetition.
+Print Assumptions C11_root_loop_all_draw.
